@@ -345,13 +345,20 @@ class World(object):
 
             s._capture_scheduled_job, s._invoke_job, s._delete_scheduled_job = capture, invoke, delete
         else:
-            oi, od = s._invoke_calls, s.delete_calls
+            oc, oi, od = s._capture_calls, s._invoke_calls, s.delete_calls
+            names = []
+
+            def capture(batch_size):
+                calls = oc(batch_size)
+                del names[:]
+                names.extend([c.target_method_name.split('.')[-1] for c in calls])
+                return calls
 
             def invoke(prepared):
                 g = getattr(_TL, 'gate', None)
-                for one in prepared:
+                for k, one in enumerate(prepared):
                     if g is not None:
-                        g.park('invoke', None)
+                        g.park('invoke', names[k] if k < len(names) else None)
                     oi([one])
 
             def delete(db_calls):
@@ -360,6 +367,7 @@ class World(object):
                     g.park('delete', None)
                 return od(db_calls)
 
+            s._capture_calls = capture
             s._invoke_calls, s.delete_calls = invoke, delete
 
     def _job_rows(self):
@@ -474,6 +482,8 @@ class World(object):
                 g.start()
                 ev.update(kind='lpoll')
             elif kind in ('linv', 'ldel'):
+                if kind == 'linv' and self.lpoll.at and self.lpoll.at[1]:
+                    ev['func'] = self.lpoll.at[1]
                 self.lpoll.step()
                 if self.lpoll.error is not None:
                     ev['exc'] = type(self.lpoll.error).__name__
